@@ -470,8 +470,49 @@ def long_strings_and_fresh_process_stream(ctx, res):
         if bad:
             res.violate("C04:registry-history", "after an application registered its own format (history: %s) not every format decodes what it encodes" % mode, dict(case, failed=bad))
 
+def special_keys_and_texts_stream(ctx, res):
+    """keys and texts that mean something to a TOOL around the formats, but are plain data to the formats: `$schema` / `$id` /
+    `$ref` / `$comment` (JSON schema hints), `<<` and `=` (YAML merge / value keys), keys that spell YAML booleans and nulls,
+    `__proto__`, `_id`; texts that look like environment references (`$HOME/data`, `${C04_PORT}`, `$C04_EMPTY` with the variables
+    SET in this process), shell substitutions, Windows `%VAR%`; texts holding U+0000 and other control characters (BSON strings are
+    length-prefixed: a NUL in a VALUE is fine, only element names cannot carry one).  At the top level, nested, in lists; every
+    format in whose domain the tree is, every option"""
+    from cincoconfig.core import ConfigFormat
+    saved = {k: os.environ.get(k) for k in ("C04_PORT", "C04_EMPTY", "C04_NAME")}
+    os.environ.update(C04_PORT="8080", C04_EMPTY="", C04_NAME="value with blanks")
+    try:
+        trees = []
+        for key in ("$schema", "$id", "$ref", "$comment", "<<", "=", "y", "n", "yes", "no", "on", "off", "null", "~", "true", "__proto__", "_id", "$C04_PORT", "${C04_EMPTY}", "%PATH%"):
+            trees.append(("key " + key, {key: "https://example.org/app.schema.json", "port": 8080}))
+            trees.append(("key " + key + " holding null", {key: None}))
+            trees.append(("nested key " + key, {"servers": [{"env": {key: ["a", 1]}}], key: {key: 0}}))
+        for text in ("$HOME/data", "${C04_PORT}", "$C04_EMPTY", "${C04_EMPTY}", "$C04_PORT", "a $C04_NAME b", "$$", "$", "5$", "$UNSET_C04_VARIABLE", "~/x", "~", "%PATH%", "$(id)", "`id`",
+                     "${C04_PORT:-1}", "\\$C04_PORT", "\x00", "sep\x00arated", "\x00lead", "trail\x00", "a\x01b", "\x1b[0m", "\x7f", "tab\tnew\nline"):
+            trees.append(("text " + repr(text), {"value": text, "list": [text, "a"], "deep": {"er": [{"x": text}]}}))
+        for label, t in trees:
+            for fmt in ["json", "yaml", "bson", "xml", "pickle"]:
+                if not in_domain(fmt, t) or (fmt == "bson" and any("\x00" in k for k in inner_keys(t))):
+                    continue
+                for opts in OPTS[fmt][:3]:
+                    case = {"stream": "special-keys-and-texts", "fmt": fmt, "opts": opts, "tree": label}
+                    res.case(json.dumps(["special", label, fmt, opts]), kind="special-keys-and-texts:" + fmt)
+                    try:
+                        back = ConfigFormat.get(fmt, **opts).loads(None, ConfigFormat.get(fmt, **opts).dumps(None, t))
+                    except Exception as exc:  # noqa
+                        res.violate("C04:special-key-or-text", "%s cannot round-trip a tree of its domain (%s): %s" % (fmt, label, type(exc).__name__), dict(case, error=str(exc)[:120]))
+                        continue
+                    if canon_sorted(back) != canon_sorted(t):
+                        res.violate("C04:special-key-or-text", "%s decodes to a different tree (%s)" % (fmt, label), dict(case, sent=repr(t)[:160], got=repr(back)[:160]))
+    finally:
+        for k, v in saved.items():
+            if v is None:
+                os.environ.pop(k, None)
+            else:
+                os.environ[k] = v
+
 def run(ctx):
     res = Result()
+    guard(res, "C04", special_keys_and_texts_stream, ctx, res)
     guard(res, "C04", long_strings_and_fresh_process_stream, ctx, res)
     guard(res, "C04", stream_elem, ctx, res, ctx.n(600, 20000))
     guard(res, "C04", stream_doc, ctx, res, ctx.n(250, 8000))
